@@ -11,7 +11,10 @@ import common, pool, specs, gens, c02, ftdiff
 
 def classify(case, rec):
     import gens7
-    return set(case["tags"]) & (set(gens7.KNOWN_BAD_TAGS) | {"merger_swizzle_before_multi_rank_lookup"})
+    preds = set(case["tags"]) & (set(gens7.KNOWN_BAD_TAGS) | {"merger_swizzle_before_multi_rank_lookup"})
+    if rec is not None and gens.colliding_rank_names(rec["yaml"]):
+        preds.add("colliding_rank_names")
+    return preds
 
 
 def witnesses(ctx):
